@@ -63,6 +63,8 @@ def decide(R, check, prop, tier, kf, replay_dir):
     # group failures: one replay per distinct input set
     narrow = None
     for ob in failed:
+        if ob['class'] == 'unwind' and not check.unwind:
+            d.undecided.append((ob, 'the closure now contains a loop that runs more than 6 times; this contract has no invariant for it (not covered, not a violation)')); continue
         k = match_known(kf, prop, check, ob)
         inputs = ob.get('trace_inputs') or {}
         verdict, txt = ('skipped', '')
@@ -90,6 +92,8 @@ def decide(R, check, prop, tier, kf, replay_dir):
                    cbmc_trace_tail=ob.get('trace_tail'), cbmc_cmd=r.cmd, confirmed=confirmed)
         if k is not None:
             d.known.append((k, rec)); continue
+        if (ob.get('label') or '').startswith('[delegation]'):
+            d.undecided.append((ob, 'the function no longer delegates to the assumed-contract algorithm in the way this contract expects; the replacement code is outside what the contract can decide')); continue
         os.makedirs(replay_dir, exist_ok=True)
         path = os.path.join(replay_dir, '%s.%s.json' % (check.id, re.sub(r'[^A-Za-z0-9]+', '_', ob['name'])[-60:]))
         json.dump(rec, open(path, 'w'), indent=1)
